@@ -1,6 +1,6 @@
 """C06 loading arbitrary XML is safe (structural necessary conditions)."""
 from prog import Program
-import nullness, cap, progloops, snp, guards, linkfree, union, enumstore
+import nullness, cap, progloops, snp, guards, linkfree, union, enumstore, precond
 
 XML_UNITS = ["topology-xml.c", "topology-xml-nolibxml.c", "topology-xml-libxml.c"]
 
@@ -31,6 +31,10 @@ def run(chk, tier):
     chk.floor("R-SNPSIZE", "fixed-buffer snprintf sites in the XML code", ns, 6)
     chk.rule("R-FREERESET", "a child list released on the failure path of hwloc_look_xml is reset to NULL (same field) before returning, so that the topology can be cleared/destroyed again")
     guards.free_then_reset(chk, P, "hwloc_look_xml", "topology-xml.c", ("hwloc_free_object_siblings_and_children",), min_inst=4)
+    chk.rule("R-PRECOND", "a callee's asserted precondition on a scalar parameter (assert(param OP CONSTANT)) holds at every call site of the XML import code: constant argument "
+             "satisfying it, call unreachable with the excluded value (seeded evaluation), or relation tested on every path")
+    npc = precond.run(chk, P, units=("topology-xml.c", "topology-xml-nolibxml.c", "topology-xml-libxml.c"))
+    chk.floor("R-PRECOND", "call sites with an asserted scalar precondition", npc, 3)
     chk.rule("R-ENUMSTORE", "a number converted from XML text is stored into an enum-typed attribute field only when it equals an enumerator (the converted variable is forked over "
              "the enumerators and out-of-range representatives; the store must be unreachable for the latter)")
     nes = enumstore.run(chk, P, "topology-xml.c")
@@ -41,7 +45,8 @@ def run(chk, tier):
     chk.rule("R-LINKFREE", "an object handed to an insertion function (which links, merges-and-frees or frees it) is never released afterwards by its creator: no feasible path from an insertion of x to hwloc_free_unlinked_object(x) (may-dataflow + correlated-condition path search)")
     nlf = linkfree.run(chk, P, units=("topology-xml.c",))
     chk.floor("R-LINKFREE", "release sites in the XML import code", nlf, 2)
-    chk.decided += ["enum-typed object attributes read from XML hold an enumerator (cache type, bridge upstream/downstream type): consumers that assert on them cannot abort",
+    chk.decided += ["assertions on scalar parameters of functions called by the XML import cannot fail on values taken from the file (memattr ids)",
+                    "enum-typed object attributes read from XML hold an enumerator (cache type, bridge upstream/downstream type): consumers that assert on them cannot abort",
                     "attributes read from XML are stored into the union member that matches the object's type (no type confusion between cache/numanode/group/pcidev/bridge/osdev attributes)",
                     "a failed import never frees an object that is already linked into the tree (no double free / use after free in the cleanup)",
                     "no NULL dereference from a missing attribute (all optional locals of the import functions, all paths)",
